@@ -7,7 +7,7 @@
    configuration IS a serial configuration; while it is held, exactly one thread is inside its body, nobody else can
    move, and finishing that thread's remaining code sequentially gives the next serial configuration. *)
 From Coq Require Import String List Arith Bool Lia Permutation.
-From Crem Require Import Serialise.
+From Crem Require Import Serialise SerialiseCorr.
 Import ListNotations.
 
 Set Implicit Arguments.
@@ -434,6 +434,19 @@ Proof.
     rewrite (Hk _ _ Hi Ii), (Hk _ _ Hj Ij). reflexivity.
 Qed.
 
+(* every atomic action on the shared state is performed with the mutex held *)
+Theorem acts_hold_lock : forall tr c i c',
+  exec (init d progs s0) tr c -> step c (EAct i) c' -> lock c = true.
+Proof.
+  intros tr c i c' He Hstep.
+  destruct (inv_reachable He) as (_ & _ & [(_ & _ & Ht) | (Hl & _)]); auto.
+  exfalso. inversion Hstep as [ | | c1 j lj a rj s' l' pf Hn Ha]; subst.
+  rewrite Ht, nth_error_thr_of in Hn.
+  destruct (nth_error progs i) as [pj|]; [|discriminate].
+  destruct (nth_error (snd (serial progs (acq_order tr) s0)) i) as [rj0|]; [|discriminate].
+  inversion Hn as [Hn']. destruct (thread_of_code pj rj0) as [Hc|[cd Hc]]; rewrite Hn' in Hc; cbn in Hc; discriminate.
+Qed.
+
 (* ---------- completed executions are serial executions ---------- *)
 Lemma all_done_thr_of : forall res,
   length res = length progs -> forallb (@done_thread St Lc) (thr_of res) = true ->
@@ -560,6 +573,29 @@ Proof.
   exact (@locked_progress St Lc true progs s0 eq_refl tr c He).
 Qed.
 
+Lemma facts_ok_locked : forall f, facts_ok f = true -> serve_is_locked f = true.
+Proof. intros f H. unfold facts_ok in H. apply andb_prop in H. tauto. Qed.
+
+Theorem facts_ok_serialisable : forall (f : serve_facts), facts_ok f = true ->
+  forall St Lc (progs : list (prog St Lc)) s0 tr c,
+  exec (serve_init f progs s0) tr c -> all_done c = true ->
+  exists ord, Permutation ord (seq 0 (length progs)) /\
+              sh c = fst (serial progs ord s0) /\ results c = snd (serial progs ord s0).
+Proof. intros f H. apply facts_serialisable, facts_ok_locked, H. Qed.
+
+Theorem facts_ok_acts_hold_lock : forall (f : serve_facts), facts_ok f = true ->
+  forall St Lc (progs : list (prog St Lc)) s0 tr c i c',
+  exec (serve_init f progs s0) tr c -> step c (EAct i) c' -> lock c = true.
+Proof.
+  intros f H St Lc progs s0 tr c i c' He Hs. apply facts_ok_locked in H.
+  unfold serve_init, serve_thread in He. rewrite H in He. eapply acts_hold_lock; eauto.
+Qed.
+
+Theorem facts_ok_progress : forall (f : serve_facts), facts_ok f = true -> sf_unlock_deferred f = true ->
+  forall St Lc (progs : list (prog St Lc)) s0 tr c,
+  exec (serve_init f progs s0) tr c -> all_done c = true \/ exists e c', step c e c'.
+Proof. intros f H. apply facts_progress, facts_ok_locked, H. Qed.
+
 (* ---------- without the mutex the statement is false: the classical lost update ---------- *)
 Definition rmw : list (astep nat nat) :=
   [fun s _ => (s, s, false);          (* read the shared counter into the private register *)
@@ -607,3 +643,23 @@ Proof.
   destruct (tid e) as [|[|k]]; try (vm_compute in H; discriminate).
   destruct k; vm_compute in H; discriminate.
 Qed.
+
+(* ---------- the same at the level of the engine's requests (SerialiseCorr.torn_run) ---------- *)
+Theorem engine_unlocked_refuted : exists tr c,
+  exec (uinit torn_progs ([false; false], [false; false])) tr c /\ all_done c = true /\
+  forall ord, Permutation ord (seq 0 (length torn_progs)) ->
+              sh c <> fst (serial torn_progs ord ([false; false], [false; false])).
+Proof.
+  exists (snd torn_run), (fst torn_run).
+  split.
+  { apply run_to_end_sound with (sch := [0; 1; 0; 0; 1]). apply surjective_pairing. }
+  split.
+  { vm_compute. reflexivity. }
+  intros ord Hp. cbn in Hp. apply Permutation_sym, Permutation_length_2_inv in Hp.
+  destruct Hp as [-> | ->]; vm_compute; discriminate.
+Qed.
+
+(* an interleaved run of three locked engine requests, by computation: completes, and the theorem's conclusion is observed *)
+Definition demo_progs : list (prog est eresp) :=
+  [prog_of (RSet [(0, true); (2, true)]); prog_of (RGet [0; 1; 2]); prog_of (RRep [false; true; false])].
+Definition demo_run := run_to_end [2; 0; 1; 2; 2; 0; 1; 1; 0; 2; 0] (init true demo_progs ([false; false; false], [false; false; false])).
